@@ -27,7 +27,7 @@ pub fn build_mesh<F: Function + MathFunction + fidget_core::render::RenderHints 
     Some(o.walk_dual())
 }
 
-pub struct MeshReport { pub problems: Vec<String>, pub vol: f64, pub area: f64 }
+pub struct MeshReport { pub problems: Vec<String>, pub vol: f64, pub area: f64, pub bad_edges: Vec<[f64; 3]> }
 
 /// closed 2-manifold: every directed edge exactly once, its reverse exactly once; no degenerate triangle; finite vertices
 pub fn check_mesh(m: &Mesh) -> MeshReport {
@@ -49,6 +49,10 @@ pub fn check_mesh(m: &Mesh) -> MeshReport {
     let unmatched = edges.keys().filter(|(a, b)| edges.get(&(*b, *a)).copied().unwrap_or(0) != 1).count();
     if dup > 0 { p.push(format!("kind=directed-edge-repeated {dup} directed edges occur more than once")); }
     if unmatched > 0 { p.push(format!("kind=open-or-misoriented-edge {unmatched} directed edges have no single reverse")); }
+    let mut bad_edges = vec![];
+    for ((a, b), c) in &edges { if *c > 1 || edges.get(&(*b, *a)).copied().unwrap_or(0) != 1 {
+        let (p, q) = (m.vertices[*a], m.vertices[*b]);
+        bad_edges.push([(p.x + q.x) as f64 / 2.0, (p.y + q.y) as f64 / 2.0, (p.z + q.z) as f64 / 2.0]); } }
     let (mut vol, mut area) = (0.0f64, 0.0f64);
     if oob == 0 { for t in &m.triangles {
         let f = |i: usize| Vector3::new(m.vertices[i].x as f64, m.vertices[i].y as f64, m.vertices[i].z as f64);
@@ -56,7 +60,7 @@ pub fn check_mesh(m: &Mesh) -> MeshReport {
         vol += a.dot(&b.cross(&c)) / 6.0;
         area += (b - a).cross(&(c - a)).norm() / 2.0;
     } }
-    MeshReport { problems: p, vol, area }
+    MeshReport { problems: p, vol, area, bad_edges }
 }
 
 fn eval_f64(g: &GenShape, p: [f64; 3]) -> f64 {
@@ -74,11 +78,26 @@ pub fn run(seed: u64, count: usize, outdir: &str) -> std::io::Result<i32> {
     let (mut ntri, mut nempty) = (0usize, 0usize);
     for ci in 0..count {
         let mut r = rng.fork();
-        let g = gen_csg(&mut r, true, true);
-        let depth = *r.pick(&[1u8, 2, 3, 3, 4, 4, 5, 6]);
+        let mut g = gen_csg(&mut r, true, true);
+        let mut depth = *r.pick(&[1u8, 2, 3, 3, 4, 4, 5, 6]);
+        let corpus = ci < 3;
+        if corpus {
+            // small blobs on grid corners such that two face-adjacent cells both join the diagonal
+            // inside corners of their shared (ambiguous) face: cell masks 185 over 155 (found by the model, DcEdge.v)
+            use fidget_shapes::{types::Vec3, Sphere, Union};
+            let h = [0.5f32, 0.25, 0.5][ci];
+            depth = [2u8, 3, 3][ci];
+            let rad = h * [0.4f32, 0.4, 0.3][ci];
+            let pts = [(0., 0., 0.), (0., 0., 1.), (1., 0., 1.), (1., 1., 1.), (1., 1., 0.), (1., 1., -1.), (1., 0., -1.), (0., 0., -1.)];
+            let input: Vec<fidget_core::context::Tree> = pts.iter().map(|p: &(f32, f32, f32)| Sphere { center: Vec3::new(p.0 * h, p.1 * h, p.2 * h), radius: rad }.into()).collect();
+            let t: fidget_core::context::Tree = Union { input }.into();
+            let mut ctx = fidget_core::context::Context::new();
+            let root = ctx.import(&t);
+            g = GenShape { ctx, root, kind: "ambiguous-face" };
+        }
         let s = 1.0 + r.unit() as f32 * 0.5;
-        let mat = match r.below(3) { 0 => Matrix4::identity(), 1 => Matrix4::new_scaling(s),
-            _ => Matrix4::new_scaling(1.8) * Matrix4::from_euler_angles(r.unit() as f32 * 3.0, r.unit() as f32 * 3.0, r.unit() as f32 * 3.0) };
+        let mat = if corpus { Matrix4::identity() } else { match r.below(3) { 0 => Matrix4::identity(), 1 => Matrix4::new_scaling(s),
+            _ => Matrix4::new_scaling(1.8) * Matrix4::from_euler_angles(r.unit() as f32 * 3.0, r.unit() as f32 * 3.0, r.unit() as f32 * 3.0) } };
         let threads = *r.pick(&[0usize, 0, 1, 2, 4, 9]);
         let line0 = format!("kind={} nodes={} depth={depth} threads={threads} mat={:?}", g.kind, g.ctx.len(), mat.as_slice());
         distinct.insert(line0.clone());
@@ -106,7 +125,27 @@ pub fn run(seed: u64, count: usize, outdir: &str) -> std::io::Result<i32> {
             let rep = check_mesh(&m);
             ntri += m.triangles.len();
             if m.triangles.is_empty() { nempty += 1; }
-            for p in &rep.problems { let (k, rest) = p.split_once(' ').unwrap(); bad.push(format!("{k} backend={name} {rest}")); }
+            // a leaf face whose four corners alternate in sign (inside corners on a diagonal) near an offending edge:
+            // the recorded limitation of the connectivity tables (DcEdge.ambiguous_face_nonmanifold)
+            let ambiguous = !rep.bad_edges.is_empty() && {
+                let h = 2.0 / (1u32 << depth) as f64;
+                let inv = m64.try_inverse();
+                rep.bad_edges.iter().all(|e| {
+                    let Some(inv) = inv else { return false };
+                    let w = inv.transform_point(&nalgebra::Point3::new(e[0], e[1], e[2]));
+                    let base = [((w.x + 1.0) / h).floor() as i64, ((w.y + 1.0) / h).floor() as i64, ((w.z + 1.0) / h).floor() as i64];
+                    let sign = |i: i64, j: i64, k: i64| { let q = m64.transform_point(&nalgebra::Point3::new(-1.0 + i as f64 * h, -1.0 + j as f64 * h, -1.0 + k as f64 * h)); eval_f64(&g, [q.x, q.y, q.z]) < 0.0 };
+                    let mut found = false;
+                    for di in -2..=2i64 { for dj in -2..=2i64 { for dk in -2..=2i64 { let (i, j, k) = (base[0] + di, base[1] + dj, base[2] + dk);
+                        for (u, v) in [((1, 0, 0), (0, 1, 0)), ((0, 1, 0), (0, 0, 1)), ((1, 0, 0), (0, 0, 1))] {
+                            let (c00, c10, c01, c11) = (sign(i, j, k), sign(i + u.0, j + u.1, k + u.2), sign(i + v.0, j + v.1, k + v.2), sign(i + u.0 + v.0, j + u.1 + v.1, k + u.2 + v.2));
+                            if c00 == c11 && c10 == c01 && c00 != c10 { found = true; }
+                        } } } }
+                    found })
+            };
+            for p in &rep.problems { let (k, rest) = p.split_once(' ').unwrap();
+                let k = if ambiguous && (k == "kind=directed-edge-repeated" || k == "kind=open-or-misoriented-edge") { "kind=nonmanifold-at-ambiguous-face" } else { k };
+                bad.push(format!("{k} backend={name} {rest}")); }
             if rep.problems.is_empty() {
                 // enclosed volume vs sampled volume: within the sampling resolution of the octree
                 // features smaller than a cell may be missed or merged: cell^3 per such feature; surface placement: area * cell
@@ -130,7 +169,7 @@ pub fn run(seed: u64, count: usize, outdir: &str) -> std::io::Result<i32> {
                 if out_bad * 2 > out_ok + out_bad && m.triangles.len() >= 200 { bad.push(format!("kind=inward-winding backend={name} {out_bad} of {} triangles face inward", out_ok + out_bad)); }
             }
             if std::env::var("FV_DEBUG").is_ok() { eprintln!("case {ci} {name} depth {depth} tris {} vol {:.4} sampled {:.4} area {:.3} det {:.3}", m.triangles.len(), rep.vol, vol_sampled, rep.area, det); }
-            write!(il, "{name} tris {} verts {} ; ", m.triangles.len(), m.vertices.len()).unwrap();
+            if name == "vm" { write!(il, "manifold {} | volsign {}", rep.problems.iter().all(|p| p.starts_with("kind=non-finite")) as u8, if rep.vol > 0.0 { 1 } else if rep.vol < 0.0 { -1 } else { 0 }).unwrap(); }
             if name == "vm" {
                 // the mesh for the verified checker: vertex bit patterns and triangles
                 write!(wire, "c08 {} {}", m.vertices.len(), m.triangles.len()).unwrap();
@@ -139,6 +178,7 @@ pub fn run(seed: u64, count: usize, outdir: &str) -> std::io::Result<i32> {
             }
         }
         if wire.is_empty() { wire = "c08 0 0".into(); }
+        if il.is_empty() { il = "manifold 1 | volsign 0".into(); }
         cases.push_str(&wire); cases.push('\n');
         impls.push_str(il.trim_end()); impls.push('\n');
         for m in &bad { fails += 1; writeln!(oracle, "FAIL case={ci} {m} :: {line0}").unwrap(); }
